@@ -47,6 +47,7 @@ type Rec struct {
 	LogOK  bool     `json:"log_ok"` // GetHandshakeLog() + JSON encoding returned on both ends
 	LogErr string   `json:"log_err"`
 	Millis int      `json:"millis"` // wall time of the case
+	Calls  *Calls   `json:"calls"`  // injection cases: what became of Read / Write / CloseWrite / Close
 	Obs    tlsh.Obs `json:"obs"`
 }
 
@@ -323,7 +324,10 @@ func solo(cs Case32, b *tlsh.Built, script []byte) (tlsh.Obs, bool, string) {
 func runCase(cs Case32) (rec Rec) {
 	t0 := time.Now()
 	defer func() { rec.Millis = int(time.Since(t0) / time.Millisecond) }()
-	rec = Rec{Case32: cs, LogOK: true}
+	rec = Rec{Case32: cs, LogOK: true, Calls: &Calls{Read: "-", Write: "-", CloseWrite: "-", Close: "-"}}
+	if cs.Kind == "inject" {
+		return runInject(cs)
+	}
 	b := build(cs)
 	if cs.Kind == "stream" {
 		rnd := rand.New(rand.NewSource(int64(cs.Seed)))
@@ -420,6 +424,14 @@ func randomCase(r *rand.Rand, id int) Case32 {
 	cs := Case32{ID: id, Vers: c[0].(int), Suite: c[1].(int), Key: c[2].(string), Dir: r.Intn(2), Idx: r.Intn(12), Seed: r.Intn(1 << 30)}
 	if r.Intn(4) == 0 {
 		cs.Auth = 4
+	}
+	if r.Intn(8) == 0 {
+		cs.Kind, cs.Pos, cs.Auth = "inject", r.Intn(4), 0
+		cs.Sub = []string{"keyupdate0", "keyupdate1", "nst"}[r.Intn(3)]
+		if cs.Vers != 13 {
+			cs.Vers, cs.Suite, cs.Key = 13, 0, "E"
+		}
+		return cs
 	}
 	kinds := []string{"flip", "flip", "flip", "trunc", "insert", "split", "refrag", "dup", "drop", "close", "garbage", "stream", "stream", "shorten", "shorten", "lengthen", "zeros"}
 	cs.Kind = kinds[r.Intn(len(kinds))]
